@@ -138,18 +138,8 @@ func (c *Ctx) isAdvanceValue(v ssa.Value, isBase func(ssa.Value) bool) bool {
 			if !(isBase(base) || c.isAdvanceValue(base, isBase)) {
 				continue
 			}
-			if n, ok := constIntArg(inc); ok {
-				if n >= 1 {
-					return true
-				}
-				continue
-			}
-			if ex, ok := inc.(*ssa.Extract); ok && ex.Index == 1 {
-				if call, ok := ex.Tuple.(*ssa.Call); ok {
-					if cal := calleeOf(call); cal != nil && (cal.String() == "unicode/utf8.DecodeRune" || cal.String() == "unicode/utf8.DecodeRuneInString") {
-						return true // size >= 1 on a non-empty slice
-					}
-				}
+			if positiveStep(inc, 0) {
+				return true
 			}
 		}
 	case *ssa.Call:
@@ -165,6 +155,30 @@ func (c *Ctx) isAdvanceValue(v ssa.Value, isBase func(ssa.Value) bool) bool {
 			}
 		}
 		return len(x.Edges) > 0
+	}
+	return false
+}
+
+// positiveStep: a constant >= 1, the size DecodeRune returns for a non-empty slice, or a phi of such values (a width
+// chosen between the decoded size and a fixed width for a pair).
+func positiveStep(inc ssa.Value, depth int) bool {
+	if n, ok := constIntArg(inc); ok {
+		return n >= 1
+	}
+	if ex, ok := inc.(*ssa.Extract); ok && ex.Index == 1 {
+		if call, ok := ex.Tuple.(*ssa.Call); ok {
+			if cal := calleeOf(call); cal != nil && (cal.String() == "unicode/utf8.DecodeRune" || cal.String() == "unicode/utf8.DecodeRuneInString") {
+				return true // size >= 1 on a non-empty slice
+			}
+		}
+	}
+	if phi, ok := inc.(*ssa.Phi); ok && depth < 3 && len(phi.Edges) > 0 {
+		for _, e := range phi.Edges {
+			if !positiveStep(e, depth+1) {
+				return false
+			}
+		}
+		return true
 	}
 	return false
 }
